@@ -21,7 +21,39 @@ def main(argv):
     if replay:
         return mod.replay(replay)
     lean = common.lean_side(pid, tier)
-    res = mod.run(seed=seed, tier=tier, lean=lean)
+    try:
+        res = mod.run(seed=seed, tier=tier, lean=lean)
+    except Exception as e:
+        # safety net: the real code raised somewhere the harness does not expect an exception (on the unchanged
+        # tree it never does).  Reported with the case the harness was working on.
+        tb = traceback.extract_tb(e.__traceback__)
+        inrepo = [f for f in tb if f.filename.startswith(common.REPO + os.sep)]
+        if not inrepo:
+            raise
+        last = inrepo[-1]
+        where = f'{os.path.relpath(last.filename, common.REPO)}:{last.name}'
+        res = common.Result(rule='aborted: the implementation raised on a generated case', evaluations=1)
+        res.samples.append({'crash': where})
+        res.violations.append(common.Violation(
+            what=f'the implementation raised {type(e).__name__}: {str(e)[:200]} in {where} on a generated well-formed case',
+            fingerprint=f'impl-crash:{type(e).__name__}:{where}',
+            replay={'traceback': traceback.format_exception(type(e), e, e.__traceback__)[-12:], 'case': dict(common.CURRENT)}))
+    # the translated-code tie no longer checks against the current source: search harder for a failing input
+    tie = lean.get('tie') or {}
+    if tie.get('status') in ('broken', 'untranslatable') and not [v for v in res.violations if not v.no_failing_input]:
+        extra = 4 if tier == 'quick' else 8
+        more = 0
+        for k in range(1, extra + 1):
+            r2 = mod.run(seed=seed + 7919 * k, tier=tier, lean=lean)
+            more += r2.evaluations
+            res.evaluations += r2.evaluations; res.nontrivial |= r2.nontrivial; res.drift += r2.drift
+            res.violations += r2.violations
+            if [v for v in r2.violations if not v.no_failing_input]: break
+        res.escalation = {'reason': f'translator tie {tie.get("status")}', 'extra_seeds_run': k, 'extra_cases': more,
+                          'failing_input_found': bool([v for v in res.violations if not v.no_failing_input])}
+        print(f'NOTE property={pid}: the theorems about the translated code no longer check against the current source '
+              f'({tie.get("status")}: {str(tie.get("detail"))[:200]}); searched {more} further cases, '
+              f'{"found a failing input" if res.escalation["failing_input_found"] else "no failing input: the verdict rests on the hand-written model and its correspondence"}')
     # listed known findings: replay each witness on the real code on every run
     for k in common.load_known().get('findings', []):
         if k.get('property') == pid and 'witness' in k and hasattr(mod, 'check_witness'):
